@@ -46,6 +46,22 @@ def run_verus(path, extra=None, timeout=1800):
     return {"cmd": " ".join(cmd), "json": data, "stderr": err, "rc": rc, "wall_s": wall}
 
 
+def confirm_in_isolation(path, qualified):
+    """True iff the function verifies when it is the only function verus is asked to verify."""
+    name = qualified.split("::")[-1]
+    r = run_verus(path, extra=["--verify-root", "--verify-function", name])
+    d = r["json"]
+    try:
+        ok = None
+        for mod in d["times-ms"]["smt"]["smt-run-module-times"]:
+            for fb in mod.get("function-breakdown", []):
+                if fb["function"] == qualified:
+                    ok = bool(fb.get("success")) if ok is None else (ok and bool(fb.get("success")))
+        return bool(ok)
+    except Exception:
+        return False
+
+
 def error_blocks(stderr):
     """split rustc-style diagnostics into blocks starting with `error`"""
     blocks = []
@@ -239,7 +255,13 @@ def run_unit(unit, twin=None):
                 errs = per_fn_err.get(name, [])
                 txt = "\n".join(errs)
                 definite = [e for e in errs if FAILED_PAT.search(e) and not re.search(r"resource limit|rlimit", e, re.I)]
-                if definite:
+                if definite and confirm_in_isolation(dst, fb["function"]):
+                    # A failure that does not reproduce when the function is verified on its own is a solver artefact of the batch
+                    # run (Verus shares one Z3 session per module: after another function's failed query a brittle one may fail
+                    # too). It is not reported: the obligation is discharged by the isolated run.
+                    ob["status"] = "verified"
+                    ob["note"] = "failed in the batch run, verified when run alone (--verify-function): batch artefact, not reported"
+                elif definite:
                     ob["status"] = "failed"
                     ob["failed_checks"] = [{"msg": e.splitlines()[0] + " @ " + (re.search(r"--> (\S+)", e).group(1).split("/")[-1] if re.search(r"--> \S+", e) else ""),
                                             "kind": "failed"} for e in errs][:6]
